@@ -224,7 +224,8 @@ struct Config {
 
 fn gen_config(seed: u64, idx: u64, maxdepth: u64) -> Config {
     let mut rng = HRng::new(seed).fork(idx);
-    let d = 1 + rng.below(6) as usize;
+    // mostly small; one configuration in six is wide enough for the unrolled vector loops of the kernels
+    let d = if (idx / 10) % 6 == 5 { *rng.choose(&[16usize, 20, 33]) } else { 1 + rng.below(6) as usize };
     let kind = if idx % 2 == 0 { KineticEnergyKind::Euclidean } else { KineticEnergyKind::ExactNormal };
     let target = match (idx / 2) % 5 {
         0 => Target::iso(d, 0.2),
@@ -468,7 +469,7 @@ fn run_config(report: &mut Report, cfg: &Config, verbose: bool) {
 }
 
 pub fn run(args: &Args, report: &mut Report) {
-    report.rule = "configurations = random (density family, dim 1..6, diagonal / low-rank transformation, kinetic kind, start, momentum, \
+    report.rule = "configurations = random (density family, dim 1..6 and 16..33, diagonal / low-rank transformation, kinetic kind, start, momentum, \
         step size 0.01..1.5) x maxdepth; for each, the exact kernel P(z_a -> .) is extracted from every state a of the orbit segment by \
         enumerating all direction sequences and all outcomes of the selection draws and bisecting every selection threshold; distinct = \
         (kind, transformation, dim, family, depth reached, number of U-turn stops)".into();
